@@ -1,2 +1,3 @@
 -- Property files of work group H (import UF.Props.Cxx lines go here).
 import UF.Driver.Ops.GroupH
+import UF.Props.C10
